@@ -20,4 +20,7 @@ def run(ctx, res):
     res.rules_run.append("C02.lookup = C06.model restricted to push and the key queries + C06.sorted insertion cases (the parser appends with push; from every small object with an exact index push keeps the index exact, and index_of / contains_key / get_entries_with_index answer what a linear scan would, in source order)")
     C06.model_rule(ctx, res, rule="C02.lookup", ops={"push", "queries"})
     C06.sorted_rule(ctx, res, insert_only=True)
+    from . import C01
+    res.rules_run.append("C02.entry (every entry point feeds the core exactly the characters of its input - no character dropped, replaced or reordered on the way - and returns the core's value unchanged)")
+    C01.entry_rule(ctx, res, rule="C02.entry")
     res.assumptions.append("json_number::NumberBuf::new_unchecked, SmallString::push and SmallVec::push store what they are given (dependencies)")
